@@ -14,6 +14,9 @@ unwinds cannot flush or delete anything.
 import io
 import os
 import sys
+import random
+import hashlib
+import tempfile
 import time
 import uuid
 import shutil
@@ -327,6 +330,45 @@ def sim_getpid():
     return real.getpid()
 
 
+def _actor_random_bytes(n):
+    """deterministic 'OS randomness' for an actor: a hash stream keyed by the
+    actor's virtual pid and a per-actor counter (unique per actor and call)"""
+    w = _world
+    if w is None:
+        return None
+    a = w.by_thread.get(threading.get_ident())
+    if a is None:
+        return None
+    out = b""
+    while len(out) < n:
+        a.uuid_ctr += 1
+        out += hashlib.blake2b("{}:{}".format(a.vpid, a.uuid_ctr).encode(), digest_size=32).digest()
+    return out[:n]
+
+
+def sim_urandom(n):
+    b = _actor_random_bytes(n)
+    return real.urandom(n) if b is None else b
+
+
+class _SimNameSequence:
+    """tempfile's candidate-name generator, deterministic for actor threads"""
+
+    characters = "abcdefghijklmnopqrstuvwxyz0123456789_"
+
+    def __init__(self, real_seq):
+        self._real = real_seq
+
+    def __iter__(self):
+        return self
+
+    def __next__(self):
+        b = _actor_random_bytes(8)
+        if b is None:
+            return next(self._real)
+        return "".join(self.characters[x % len(self.characters)] for x in b)
+
+
 def sim_uuid4():
     w = _world
     if w is not None:
@@ -434,6 +476,12 @@ def install():
     os.getpid = sim_getpid
     time.sleep = sim_sleep
     uuid.uuid4 = sim_uuid4
+    # other sources of "unique names": os.urandom (secrets, random.SystemRandom) and
+    # tempfile's random candidate names - deterministic for actor threads only
+    real.urandom = os.urandom
+    os.urandom = sim_urandom
+    random._urandom = sim_urandom
+    tempfile._name_sequence = _SimNameSequence(tempfile._get_candidate_names())
     # force path-based rmtree so that "between two unlinks" is a crash point
     shutil._use_fd_functions = False
     _install_xarray()
